@@ -9,6 +9,7 @@ stated as the executable spec `Spec.exact`, evaluated on every model MIR and mir
 Python oracle on every real MIR; their proofs are work in progress (see DESIGN.md).
 -/
 import NadaVerif.Lemmas.Exact
+import NadaVerif.Lemmas.FnExact
 
 namespace NadaVerif.C09
 open NadaVerif NadaVerif.Spec NadaVerif.Lemmas
@@ -44,6 +45,21 @@ theorem entries_are_store_records (st : St) (outs : List OutDecl) (m : MirProg)
   rcases ht with rfl | ⟨f, hfm, rfl⟩
   · exact hp.2.2
   · exact (hf f hfm).1.2.2
+
+/-- No function is listed twice, and every function reference of every table names a listed function. -/
+theorem functions_once_and_present (st : St) (outs : List OutDecl) (m : MirProg) (h : compile st outs = .ok m) :
+    (m.functions.map (·.id)).Nodup ∧
+    ∀ t ∈ allTables m, ∀ e ∈ t, ∀ f, e.2.fnRef = some f → f ∈ m.functions.map (·.id) := by
+  obtain ⟨hn, hc⟩ := compile_fn_resolve st outs m h
+  refine ⟨hn, fun t ht e he f hf => ?_⟩
+  have := hc t ht e he f hf
+  simp only [count] at this
+  have hne : (List.filter (fun x => decide (x = f)) (m.functions.map (·.id))) ≠ [] := by
+    intro h0; rw [h0] at this; simp at this
+  obtain ⟨x, hx⟩ := List.exists_mem_of_ne_nil _ hne
+  have := List.mem_filter.1 hx
+  simp only [decide_eq_true_eq] at this
+  exact this.2 ▸ this.1
 
 /-- Non-vacuity and a concrete dead-code example: operation 4 is traced but no output needs it. -/
 def exSt : St := St.mk 4
